@@ -684,7 +684,23 @@ func (g *spgen) applyEdit(doc M, kind string) bool {
 		if !ok {
 			return false
 		}
-		o.op["parameters"] = append(params(o), M{"name": "pat", "in": "query", "type": "string", "pattern": "("})
+		// the rule is about every parameter that carries a pattern, whatever its type, location and way of declaration
+		bad := M{"name": "pat", "in": g.pick([]string{"query", "header", "formData"}),
+			"type": g.pick([]string{"string", "string", "integer", "boolean", "number"}), "pattern": g.pick([]string{"(", "([", "a{2,1}"})}
+		if g.p(15) {
+			bad["type"], bad["items"] = "array", M{"type": "string"}
+		}
+		if g.p(25) {
+			shared, _ := doc["parameters"].(M)
+			if shared == nil {
+				shared = M{}
+				doc["parameters"] = shared
+			}
+			shared["BadPat"] = bad
+			o.op["parameters"] = append(params(o), M{"$ref": "#/parameters/BadPat"})
+		} else {
+			o.op["parameters"] = append(params(o), bad)
+		}
 		return true
 	case "requiredUndefined", "requiredViaAdditional":
 		defs, _ := doc["definitions"].(M)
